@@ -14,6 +14,9 @@ FINDING_DEV = {
     "KF-C13-03": "Xlsx!TableNameRowSkipped",
     "KF-C13-04": "Rtf!NeighbourTablesMerged",
     "KF-C13-05": "Epub!CellInlineSpaced",
+    "KF-C13-06": "Xls!HeaderOnlySheetEmpty",
+    "KF-C13-07": "Xls!HeaderKeyCollision",
+    "KF-C13-08": "Xls!ErrorCellNone",
 }
 
 TABLE_FORMATS = {"docx", "odt", "html", "mhtml", "epub", "rtf", "pptx", "odp", "xlsx", "ods", "xls"}
@@ -84,6 +87,8 @@ def typed_values(ctx):
         for fmt in ("xlsx", "ods", "xls"):
             eff = ["empty" if ((fmt == "ods" and k in ("e", "f")) or (fmt == "xls" and k in ("d", "date", "t", "f"))) else k
                    for k in kinds]
+            if all(k == "empty" for k in eff):
+                continue        # nothing but the header row would be written
             jobs.append((kinds, fmt, eff))
     with ProcessPoolExecutor(16) as ex:
         obs = list(ex.map(_typed_job, [(k, f) for k, f, _ in jobs]))
@@ -94,15 +99,11 @@ def typed_values(ctx):
             continue
         traces.append({"id": f"typed:{fmt}:{'/'.join(kinds)}", "hdr": {"fmt": fmt, "doc": {"units": [], "header": [], "footer": []}},
                        "raw": o["raw"], "ev": [{"a": "Typed", "kinds": eff, "row": o["row"]}]})
-    br = validate("DocTrace", trace_cfg(set()), traces, scratch=ctx.scratch, parallel=8, min_chunk=50)
-    ctx.ev.tlc_counts("DocTrace: typed sheet rows validated", br.distinct, br.states, br.wall_s)
-    for t, tv in zip(traces, br.verdicts):
-        if tv.accepted:
-            ctx.v.ok()
-            ctx.ev.nontrivial(t["id"])
-        else:
-            ctx.v.violation(what=f"typed spreadsheet values changed: {t['id']} -> observed data row {t['raw']}",
-                            case={"trace": t["id"], "event": t["ev"][0]}, where="xlsx_extractor/ods_extractor cell value handling")
+    for t in traces:
+        ctx.ev.nontrivial(t["id"])
+    validate_with_findings(ctx, "DocTrace", traces, FINDING_DEV,
+                           lambda t, e: f"typed spreadsheet values changed: {t['id']} -> observed data row {t['raw']}",
+                           lambda t: "xlsx_extractor / ods_extractor / xls_extractor cell value handling")
     ctx.ev.replayed(len(traces))
     if traces:
         ctx.ev.sample({"typed_row": traces[len(traces) // 2]["id"], "observed": traces[len(traces) // 2]["raw"]})
